@@ -6,6 +6,7 @@ props = [json.loads(l) for l in open(os.path.join(V, "properties.jsonl"))]
 
 ENGINES = {
  "task": ("harness/task.cpp", "exhaustive ordering enumerator on the real promise/task under ASan/UBSan/LSan with counters"),
+ "caps": ("harness/caps.cpp", "QXmppDiscoveryIq::verificationString() for setter-built and XML-parsed info sets; Python XEP-0115 oracle"),
  "codec": ("harness/codec.cpp", "registry of 125 parse/toXml pairs of the library; DOM mutators, transparent-position probing, canonical comparison; under ASan/UBSan"),
  "msg": ("harness/msg.cpp", "QXmppMessage split into public/sensitive parts the way the encrypted send path and the OMEMO manager do it, and recovered from both parts"),
  "sasl": ("harness/sasl.cpp", "SaslManager / Sasl2Manager / QXmppSaslClient behind a mock SendDataInterface, driven by JSON lines; Python reference choice function and RFC implementations"),
@@ -41,6 +42,10 @@ CHECKS["C17"] = dict(engine="msg", cat="exploration",
    text="messages assembled from all 51 known extension element kinds of the repository's fixtures (every single kind, every pair, random subsets up to all), each kind classified public/sensitive/both from the statement; serialized with toXml(ScePublic) and serializeExtensions(SceSensitive) as the client and the OMEMO manager do; oracle: no sensitive element kind or value in the public bytes, public+sensitive is exactly the element multiset of the combined form, parse(ScePublic)+parseExtensions(SceSensitive) recovers the message and leaves no known extension as unknown",
    note="classification is our reading of the statement; unknown application-defined extensions are not judged; objects are built by combined-mode parsing of fixtures",
    tech="runtime monitoring: marker/partition/recovery oracle over generated messages, under ASan/UBSan")
+CHECKS["C20"] = dict(engine="caps", cat="exploration",
+   text="random info sets (identities incl. ones differing in one component, repeated features, FORM_TYPE forms with multi-valued fields; ASCII/Latin-1/CJK/high-BMP/astral alphabets) hashed by the real verificationString() in 5 permutations each (setters and XML parse) plus one single-element perturbation; compared with an independent Python XEP-0115 5.1 implementation (octet collation)",
+   note="Python hashlib and our reading of XEP-0115; the advertised-vs-answered half (presence <c ver> vs disco#info reply) is checked through the wire engine",
+   tech="runtime monitoring: differential oracle (independent Python XEP-0115) + metamorphic relations (permutation, duplication, perturbation), under ASan/UBSan")
 REASON_TODO = "check not built yet in this session (planned, see DESIGN.md §2)"
 
 def main():
